@@ -446,7 +446,7 @@ SPECS["C15"] = {
                    "latency (the request is in flight while every other goroutine runs) and three manual flushes: at each flush notification everything whose dispatch had returned before "
                    "the flush began is delivered, nothing twice; at the end delivered = dispatched, no request in flight, semaphores returned; a blocked harness is a violation. CONSOLIDATOR: the real MetricConsolidator alone "
                    "(1..3 slots), three epochs of 0..2 dispatches separated by flushes into a harness sink; the flushed slices, examined only at the end, hold exactly their epoch's "
-                   "datapoints (no aliasing between what was handed over and the maps new datapoints land in).",
+                   "datapoints (no aliasing between what was handed over and the maps new datapoints land in). INTERLEAVED: while the first attempt of batch A is at the upstream (answered 503) the forwarder builds and delivers batch B (played by calling postMetrics from inside the transport; compression off/zlib/lz4 symbolic, sync.Pool LIFO): B arrives once with its own datapoints, A is delivered at most once and then with ITS datapoints - a request body must not live in storage reused by a later request.",
     "bounds": {"quick": "pipeline: 0, 1, 3 datapoints over 2 names, 1..3 consolidator slots; <= 5 attempts (unwinding bound: longer scripts are cut by an assumption); invalid-UTF-8 tags of 1..2 arbitrary bytes; 1..2 series with 2..3 tags each (symbolic prefix region:/env:/none, one symbolic byte), two dynamic header names",
                "thorough": "adds <= 7 attempts, 3 arbitrary tag bytes, 2 series x 3 tags, a pipeline of 5 datapoints"},
     "outside": ["concurrent dispatch versus Drain/Fill of the consolidator and the semaphores under REAL scheduling (PIPELINE-CONC explores the cooperative interleavings only: goroutines switch at blocking "
@@ -455,11 +455,11 @@ SPECS["C15"] = {
     "assumptions": STUBS_COMMON + [NET_STUBS, TIME_MODEL, "strings.ToValidUTF8 on a symbolic string returns the replacement alone (contract: some valid UTF-8 string)"],
     "jobs": [
         {"pkg": "./pkg/statsd", "harness": "pkg/statsd", "mode": "machine",
-         "entries": {"quick": ["VerifC15_Retry2", "VerifC15_Retry3", "VerifC15_Retry5", "VerifC15_RetryNone", "VerifC15_Utf8_1", "VerifC15_Utf8_2",
+         "entries": {"quick": ["VerifC15_Retry2", "VerifC15_Retry3", "VerifC15_Retry5", "VerifC15_RetryNone", "VerifC15_Interleaved", "VerifC15_Utf8_1", "VerifC15_Utf8_2",
                                "VerifC15_Split_1_2", "VerifC15_Split_1_3", "VerifC15_Split_2_2", "VerifC15_Header", "VerifC15_Pipeline0", "VerifC15_Pipeline1", "VerifC15_Pipeline3", "VerifC15_PipelineConc", "VerifC15_Consolidator", "VerifC15_Twin"],
-                     "thorough": ["VerifC15_Retry2", "VerifC15_Retry3", "VerifC15_Retry5", "VerifC15_RetryNone", "VerifC15_Utf8_1", "VerifC15_Utf8_2", "VerifC15_Split_1_2", "VerifC15_Split_1_3", "VerifC15_Split_2_2", "VerifC15_Header", "VerifC15_Pipeline0", "VerifC15_Pipeline1", "VerifC15_Pipeline3", "VerifC15_PipelineConc", "VerifC15_Consolidator", "VerifC15_Retry7", "VerifC15_Utf8_3", "VerifC15_Split_2_3", "VerifC15_Pipeline5", "VerifC15_Twin"]},
+                     "thorough": ["VerifC15_Retry2", "VerifC15_Retry3", "VerifC15_Retry5", "VerifC15_RetryNone", "VerifC15_Interleaved", "VerifC15_Utf8_1", "VerifC15_Utf8_2", "VerifC15_Split_1_2", "VerifC15_Split_1_3", "VerifC15_Split_2_2", "VerifC15_Header", "VerifC15_Pipeline0", "VerifC15_Pipeline1", "VerifC15_Pipeline3", "VerifC15_PipelineConc", "VerifC15_Consolidator", "VerifC15_Retry7", "VerifC15_Utf8_3", "VerifC15_Split_2_3", "VerifC15_Pipeline5", "VerifC15_Twin"]},
          "reach": {"VerifC15_Retry3": ["dropped", "sent", "retried"], "VerifC15_Utf8_1": ["posted"], "VerifC15_Split_2_2": ["split"], "VerifC15_Header": ["header"], "VerifC15_Pipeline3": ["pipeline"],
-                   "VerifC15_PipelineConc": ["pipeline-conc"], "VerifC15_Consolidator": ["consolidated"]},
+                   "VerifC15_PipelineConc": ["pipeline-conc"], "VerifC15_Consolidator": ["consolidated"], "VerifC15_Interleaved": ["interleaved", "retry-delivered"]},
          "blocked_is_violation": True,
          "twin": {"VerifC15_Twin": True},
          "limits": {"quick": {"timeout": "600s"}, "thorough": {"timeout": "600s"}}},
@@ -510,7 +510,7 @@ SPECS["C19"] = {
         {"pkg": "./pkg/statsd", "harness": "pkg/statsd", "mode": "machine", "blocked_is_violation": True,
          "entries": {"quick": ["VerifC19_0", "VerifC19_1", "VerifC19_2", "VerifC19_3", "VerifC19_Two1", "VerifC19_Two2", "VerifC19_Twin"],
                      "thorough": ["VerifC19_0", "VerifC19_1", "VerifC19_2", "VerifC19_3", "VerifC19_Two1", "VerifC19_Two2", "VerifC19_Two3", "VerifC19_Twin"]},
-         "reach": {"VerifC19_2": ["after-lookup", "cache-hit", "delivered"], "VerifC19_Two2": ["after-lookup", "two-senders", "delivered-two"]},
+         "reach": {"VerifC19_2": ["after-lookup", "cache-hit", "delivered"], "VerifC19_Two2": ["after-lookup", "two-senders", "delivered-two", "wire-tags"]},
          "twin": {"VerifC19_Twin": True},
          "limits": {"quick": {"timeout": "600s"}, "thorough": {"timeout": "600s"}}},
     ],
